@@ -55,8 +55,14 @@ class Tree:
         if a == "setpred":
             ids = sorted(st["P"])
             cfg = self.ds[st["l"]].config["filtering"]
-            cfg["deform min"] = float(gen.scalar("deform", [ids[0]])[0]) - EPS
-            cfg["deform max"] = float(gen.scalar("deform", [ids[-1]])[0]) + EPS
+            if not ids:
+                # no event passes: a window below all values
+                cfg["deform min"], cfg["deform max"] = -2.0, -1.0
+            else:
+                cfg["deform min"] = float(
+                    gen.scalar("deform", [ids[0]])[0]) - EPS
+                cfg["deform max"] = float(
+                    gen.scalar("deform", [ids[-1]])[0]) + EPS
         elif a == "exclude":
             self.ds[st["l"]].filter.manual[st["i"] - 1] = False
         elif a == "include":
@@ -388,7 +394,9 @@ def main(tier, seed, replay=None):
         root_path = scratch / "root.rtdc"
         gen.write_rtdc(root_path, list(range(1, 6)), feats=FEATS)
         plans = [(2, 6, "HHNext"), (2, 8, "FocusNext"), (3, 8, "ShiftNext"),
-                 (4, 6, "ShiftNext"), (2, 4, "TempNext"), (3, 6, "ConfNext")] if q else [
+                 (4, 6, "ShiftNext"), (2, 4, "TempNext"), (3, 6, "ConfNext"),
+                 (2, 6, "EmptyNext")] if q else [
+            (2, 8, "EmptyNext"), (3, 6, "EmptyNext"),
             (3, 9, "ConfNext"), (4, 6, "ConfNext"),
             (2, 8, "TempNext"), (3, 4, "TempNext"),
             (2, 8, "HHNext"), (3, 6, "HHNext"), (1, 8, "HHNext"),
@@ -406,6 +414,21 @@ def main(tier, seed, replay=None):
             hs = res.tagged("H")
             if q and nxt == "HHNext":
                 hs = par.sample(hs, 8, seed)
+            if q and nxt == "EmptyNext":
+                # histories in which a level is emptied after a manual edit
+                # and filled again are all kept
+                def _empt(h_):
+                    acts = [(r_["a"], r_.get("P")) for r_ in h_]
+                    ie = [i for i, (a_, p_) in enumerate(acts)
+                          if a_ == "setpred" and p_ == []]
+                    return bool(ie) and any(
+                        a_ in ("exclude",) for a_, _ in acts[:ie[0]]) \
+                        and any(a_ == "setpred" and p_
+                                for a_, p_ in acts[ie[0] + 1:])
+                keep = [h_ for h_ in hs if _empt(h_)]
+                hs = keep + par.sample([h_ for h_ in hs if not _empt(h_)],
+                                       6, seed)
+                ev.extra["emptying_histories_kept"] = len(keep)
             if len(hs) > 8000:
                 k = len(hs) // 8000 + 1
                 hs = par.sample(hs, k, seed)
